@@ -188,6 +188,8 @@ def gen_cases(seed, tier):
                                       "target": target, "name": name, "seed": wseed})
                         if j % 4 == 1:
                             cases[-1]["precision"] = "64-true"
+                        if j % 3 == 2:
+                            cases[-1]["stale_files"] = True
     return cases
 
 
@@ -462,6 +464,17 @@ def _wsave_case(case, res, tmp):
     name = case.get("name", "w")
     mech["name_class"] = ("dots" if name.count(".") > 1 else "dot" if "." in name else "plain") + ("+dash" if "-" in name else "")
     files = {s: os.path.join(tmp, "%s_%s.pt" % (name, s)) for s in ("init", "min_loss", "final")}
+
+    if case.get("stale_files"):
+        # an earlier, unrelated training left its three files under the same name in the same folder
+        w0 = W.build(spec)
+        s0 = tp.solver.Solver(w0.train, w0.val, optimizer_setting=H.optimizer_setting(spec))
+        old_sd = {k: v.detach().clone() + 1.0 for k, v in pick(w0, s0).state_dict().items()}
+        for label, f in files.items():
+            # only the files this run has to write again (a file it does not write legitimately stays what it was)
+            if (label == "init" and case["init"]) or (label == "final" and case["final"]) or (label == "min_loss" and N >= c + 2):
+                torch.save(old_sd, f)
+        mech["stale_files"] = True
 
     def cbs(world, solver):
         return [tp.utils.WeightSaveCallback(pick(world, solver), tmp, name, check_interval=c,
